@@ -296,6 +296,44 @@ func c07ExprSites() []c07ExprSite {
 			m.set("os", c07QS("linux", "mac"))
 			m.set("include", c07Q(t))
 		}},
+		// ---- non-ASCII text (2-, 3- and 4-byte characters) EARLIER on the line of an ASCII construct:
+		// columns are counted in characters
+		{name: "u.step-env-key", class: "string-value", modes: []string{"emb", "whole"}, tags: tg(c07TagsStep), place: func(w *c07WF, t *c07Node) {
+			m := w.runStep.sub("env")
+			m.ents = append(m.ents, &c07Ent{c07S("名前_\u00e9"), t})
+		}},
+		{name: "u.job-env-key", class: "string-value", modes: []string{"emb", "whole"}, tags: tg(c07TagsJob), place: func(w *c07WF, t *c07Node) {
+			m := w.job.sub("env")
+			m.ents = append(m.ents, &c07Ent{c07SQ("\u00e9_cl\u00e9", c07Double), t})
+		}},
+		{name: "u.wf-env-key", class: "string-value", modes: []string{"emb", "whole"}, tags: tg(c07TagsWF), place: func(w *c07WF, t *c07Node) {
+			m := w.root.sub("env")
+			m.ents = append(m.ents, &c07Ent{c07SQ("\U0001d4b3\U0001f600k", c07Single), t})
+		}},
+		{name: "u.outputs-key", class: "string-value", modes: []string{"emb", "whole"}, tags: tg("nohashfiles noalways template"), place: func(w *c07WF, t *c07Node) {
+			m := w.job.sub("outputs")
+			m.ents = append(m.ents, &c07Ent{c07SQ("出力\U0001f600", c07Double), t})
+		}},
+		{name: "u.env-flow", class: "string-value", modes: []string{"emb", "whole"}, tags: tg(c07TagsStep), place: func(w *c07WF, t *c07Node) {
+			m := c07M()
+			m.flow = true
+			m.ents = append(m.ents, &c07Ent{c07SQ("日本", c07Double), c07SQ("\u00fc\U0001f600", c07Single)}, &c07Ent{c07S("MARK"), t})
+			w.runStep.set("env", m)
+		}},
+		{name: "u.with-flow", class: "string-value", modes: []string{"emb", "whole"}, tags: tg(c07TagsStep), place: func(w *c07WF, t *c07Node) {
+			st := c07M()
+			st.str("uses", "octo-org/some-action@v1")
+			m := c07M()
+			m.flow = true
+			m.ents = append(m.ents, &c07Ent{c07SQ("名前", c07Single), c07S("1")}, &c07Ent{c07S("arg"), t}, &c07Ent{c07S("later"), c07SQ("\u00e9", c07Double)})
+			st.set("with", m)
+			w.steps.items = append(w.steps.items, st)
+		}},
+		{name: "u.matrix-row-flow", class: "matrix-raw-value", modes: []string{"emb", "whole"}, tags: tg("nomatrix norunner nohashfiles noalways"), place: func(w *c07WF, t *c07Node) {
+			q := c07Q(c07SQ("\U0001f600\u00e9", c07Single), c07S("linux"), t)
+			q.flow = true
+			w.job.sub("strategy").sub("matrix").set("os", q)
+		}},
 		// ---- pairs: two constructs diagnosed by different rules in one scalar
 		{name: "pair.path-filter+expr", class: "string-value", modes: []string{"emb"}, tags: tg("nocontext"), noInner: true,
 			decoPre: "src/a*?b ", decoMsg: "unexpected character '?' while checking special character ? (zero or one)", decoOff: 6,
@@ -661,6 +699,23 @@ func c07KeySites() []c07KeySite {
 			cr.str("username", "me")
 			return c07AppendKey(c, "credentials", cr), []string{"both \"username\" and \"password\" must be specified"}, nil
 		}},
+		{name: "u.step-flow.unexpected", kind: "unexpected-key", build: func(w *c07WF, rr *Rand) (*c07Node, []string, []string) {
+			st := c07M()
+			st.flow = true
+			st.set("name", c07SQ("名前 \u00e9\U0001f600", c07Single))
+			st.str("run", "echo")
+			k := rr.Pick(c07BogusKeys)
+			w.steps.items = append(w.steps.items, st)
+			return c07AppendKey(st, k, c07S("1")), []string{"key \"" + k + "\""}, nil
+		}},
+		{name: "u.env-flow.duplicate", kind: "duplicate-key", build: func(w *c07WF, rr *Rand) (*c07Node, []string, []string) {
+			m := c07M()
+			m.flow = true
+			m.ents = append(m.ents, &c07Ent{c07SQ("\u00fc\U0001f600", c07Double), c07S("1")})
+			m.str("FOO", "1")
+			w.job.set("env", m)
+			return c07AppendKey(m, "FOO", c07S("2")), []string{"is duplicated in"}, nil
+		}},
 		{name: "schedule-item", kind: "schedule-item", noFlow: true, build: func(w *c07WF, rr *Rand) (*c07Node, []string, []string) {
 			it := c07M()
 			it.str("cron", "0 3 * * 1")
@@ -788,6 +843,34 @@ func c07ValSites() []c07ValSite {
 			}
 			m.set("include", incl)
 			return one(t, c07ViaMatrixLabel(t, rr, conflict))
+		}},
+		{name: "u.step-flow.shell", kind: "shell-name", styles: "pad", flowOK: true, build: func(w *c07WF, rr *Rand) (*c07Node, []string, []string) {
+			st := c07M()
+			st.flow = true
+			st.set("name", c07SQ("ステップ \u00e9\U0001f600", c07Single))
+			st.str("run", "echo")
+			n := rr.Pick([]string{"fish", "zsh"})
+			t := st.str("shell", n)
+			w.steps.items = append(w.steps.items, st)
+			return one(t, "shell name \""+n+"\" is invalid")
+		}},
+		{name: "u.matrix-dup-flow", kind: "matrix-value", styles: "pad", flowOK: true, build: func(w *c07WF, rr *Rand) (*c07Node, []string, []string) {
+			t := c07S("linux")
+			q := c07Q(c07SQ("\u00fc\U0001f600日", c07Double), c07S("linux"), c07S("mac"), t)
+			q.flow = true
+			w.job.sub("strategy").sub("matrix").set("os", q)
+			return one(t, "duplicate value \"linux\" is found in matrix \"os\"")
+		}},
+		{name: "u.permission-flow", kind: "permission-value", styles: "pad", flowOK: true, build: func(w *c07WF, rr *Rand) (*c07Node, []string, []string) {
+			// a non-ASCII block KEY cannot precede a permission value; a non-ASCII job name line can:
+			// "名前" as job name sits on another line, so use a flow mapping of the step instead
+			st := c07M()
+			st.flow = true
+			st.set("name", c07SQ("\u00e9t\u00e9 日", c07Double))
+			st.str("run", "echo")
+			t := st.str("continue-on-error", "maybe so")
+			w.steps.items = append(w.steps.items, st)
+			return one(t, "expecting a single ${{...}} expression or boolean literal")
 		}},
 		{name: "uses.missing-required-input", kind: "action-missing-input", styles: "pad", flowOK: false, build: func(w *c07WF, rr *Rand) (*c07Node, []string, []string) {
 			// the diagnostic is caused by an absent key of "with" and reported at the uses value
@@ -1212,6 +1295,11 @@ func c07Layout(b *c07Built, rr *Rand, sh c07Shift, wantFlow bool) {
 		if holder.kind != c07Scalar && holder != root && c07Flowable(holder, target) {
 			c07SetFlow(holder)
 			b.inFlow = true
+		}
+	}
+	for _, pn := range path[:len(path)-1] {
+		if pn.flow {
+			b.inFlow = true // the builder wrote the holder in flow style itself
 		}
 	}
 	// root indentation and lines above the root
